@@ -126,7 +126,7 @@ def _run(ctx, chk, prog, tag):
         seen.add(sym)
         if sym in rules.NON_REENTRANT_LIBC:
             chk.ob("C17.reentrant-libc", sym, False, where, fn=fname, detail="libc function with hidden shared state")
-        elif sym in rules.PURE_LIBC or sym in ("malloc", "realloc", "free"):
+        elif sym in rules.PURE_LIBC or sym in rules.ALLOCATING_LIBC:
             chk.ob("C17.reentrant-libc", sym, True, where, fn=fname, nontrivial=False)
         else:
             raise AnalysisBroken("external symbol %s not classified for reentrancy" % sym)
